@@ -374,15 +374,17 @@ def run_sedov(ctx, p):
         i0 = int(round(lo + f * (hi - lo)))
         R = {fl: np.array([sols[0][fl][i0 + j * m - 1] for j in OFF9], dtype=float) for fl in fields}
         T = {fl: np.array([sols[kk][fl][i0 - 1] for kk in OFF9], dtype=float) for fl in fields}
-        euler_probe(ctx, "Sedov", "g=%d %s" % (geom, styp), R, T, i0 * dlt, 2 * m * dlt, ht, geom - 1.0, tol=1e-3,
+        # tolerance: the solver's own accuracy on its 3001 nodes (measured worst residual of the unchanged tree 9e-4 in
+        # the quick tiers, 2.0e-3 once in 1900 thorough probes, in the thin low-density layer next to the truncated core)
+        euler_probe(ctx, "Sedov", "g=%d %s" % (geom, styp), R, T, i0 * dlt, 2 * m * dlt, ht, geom - 1.0, tol=3e-3,
                     detail=dict(t=t0, params=kw, r2=r2, node=i0, core_nodes=core))
 
 
 # ---- Guderley -------------------------------------------------------------------------------------------------
 def gen_gud(rng, i, tier):
+    # gamma below ~1.9 (the class default 1.4 included) costs 2-4 minutes *per call* in the eigenvalue search of eexp.py and a
+    # probe needs about twenty calls: out of reach of a monitor that has to finish, in either tier (stated in section 9)
     gammas = [2.0, 2.5, 3.0, 6.0]
-    if tier == "thorough" and i % 16 == 15:
-        gammas = [1.4, 5.0 / 3.0, 1.2]
     return dict(geom=2 + (i % 2), gamma=choice(rng, gammas), rho0=logu(rng, 0.1, 10),
                 zone=["incoming", "behind-incoming", "reflected"][i % 3], u=[uni(rng, 0, 1) for _ in range(3)])
 
